@@ -274,6 +274,13 @@ def parse_agp_lines(lines):
     return asm
 
 
+@functools.lru_cache(maxsize=32)
+def parsed_cache_bytes(ext, content):
+    """(what this module's reader makes of the bytes of a .fai / .agp, number of lines)"""
+    lines = content.decode(errors="replace").splitlines()
+    return (parse_fai_lines(lines) if ext == ".fai" else parse_agp_lines(lines)), len(lines)
+
+
 def cache_on_disk_claim(fa, data):
     """
     What a later process finds: if <fa>.fai and <fa>.agp both exist and are strictly newer than the FASTA they pass for
@@ -419,16 +426,16 @@ class FileOps:
             return
         try:
             with self.saved["open"](src_s, "rb") as fh:
-                lines = fh.read().decode(errors="replace").splitlines()
+                got, n_lines = parsed_cache_bytes(ext, fh.read())
         except OSError as e:
             self.violation(f"the file {src_s} renamed to {os.path.basename(dst_s)} cannot be read at that moment ({e})")
             return
         index, asm = brute(self.data)
-        got, want, what = (parse_fai_lines(lines), index, "index rows") if ext == ".fai" else (parse_agp_lines(lines), asm, "scaffolds")
+        want, what = (index, "index rows") if ext == ".fai" else (asm, "scaffolds")
         if got != want:
             self.violation(
                 f"the temporary file renamed to {os.path.basename(dst_s)} is not completely written at the moment of the rename: it holds "
-                f"{'something unparseable' if got is None else f'{len(got)} {what}'} in {len(lines)} lines, the FASTA content has {len(want)} {what}"
+                f"{'something unparseable' if got is None else f'{len(got)} {what}'} in {n_lines} lines, the FASTA content has {len(want)} {what}"
             )
 
     def finish(self):
